@@ -150,16 +150,32 @@ func runC09(args []string) error {
 	consts := []int{0, 1, 2, 3, 0x8000, 0xFFFF}
 	caseNo := 0
 	oneCase := func(path int, op string, cst, n, inOff, outOff int, layout string) error {
-		gin, err := allocGuarded(n, layout, inOff)
-		if err != nil {
-			return err
+		var gin, gout *gbuf
+		if layout == "adj" || layout == "adjrev" {
+			// the two buffers TOUCH: consecutive halves of one allocation (rows of a flat matrix, the two halves of a
+			// work buffer) - disjoint, so neither may be treated as the other's alias
+			g2, err := allocGuarded(2*n, "end", inOff&^1)
+			if err != nil {
+				return err
+			}
+			defer g2.free()
+			a, b := g2.data[:n:n], g2.data[n:2*n:2*n]
+			if layout == "adjrev" {
+				a, b = b, a
+			}
+			gin = &gbuf{data: a, canaryLo: g2.canaryLo, canaryHi: g2.canaryHi}
+			gout = &gbuf{data: b, canaryLo: g2.canaryLo, canaryHi: g2.canaryHi}
+		} else {
+			var err error
+			if gin, err = allocGuarded(n, layout, inOff); err != nil {
+				return err
+			}
+			if gout, err = allocGuarded(n, layout, outOff); err != nil {
+				return err
+			}
+			defer gin.free()
+			defer gout.free()
 		}
-		gout, err := allocGuarded(n, layout, outOff)
-		if err != nil {
-			return err
-		}
-		defer gin.free()
-		defer gout.free()
 		rng.Read(gin.data)
 		rng.Read(gout.data)
 		// structured inputs (every third case): zero words, zero 8-byte fields inside 16-byte records, zero half-blocks,
@@ -295,8 +311,19 @@ func runC09(args []string) error {
 					}
 				}
 			}
+			// touching buffers, in both orders, at every length up to 320 and at the big ones
+			for _, n := range lens {
+				for li, layout := range []string{"adj", "adjrev"} {
+					if n == 0 {
+						continue
+					}
+					if err := oneCase(path, op, []int{3, 0xFFFF, 1 + rng.Intn(65535)}[(n/2+li)%3], n, 2*((n/2)%8), 0, layout); err != nil {
+						return err
+					}
+				}
+			}
 			for _, n := range big {
-				for _, layout := range []string{"end", "start"} {
+				for _, layout := range []string{"end", "start", "adj", "adjrev"} {
 					if err := oneCase(path, op, 1+rng.Intn(65535), n, 0, 0, layout); err != nil {
 						return err
 					}
